@@ -47,6 +47,7 @@ type rlAccess struct {
 	fn, field string
 	write     bool
 	lock      string
+	whole     bool // a write that replaces the whole field (`r.z = …`) rather than an element of it (`r.z[k] = …`, delete)
 }
 
 type rlCall struct {
@@ -194,12 +195,13 @@ func genRouterLockShape(g *gen, repo string) {
 	applies := rlMuxApplies(repo)
 	uriPathID := rlOptionIDConst(repo, "URIPath")
 	obsCleanup := rlObservationCleanup(repo)
+	useAppends := rlUseAppends(repo)
 	discCleanup := rlDiscoveryCleanup(repo)
 
 	var b strings.Builder
 	b.WriteString("namespace CoapVerif.Generated.RouterLockShape\n\n")
 	b.WriteString("inductive Lock\n  | none | r | w\n  deriving DecidableEq, Repr\n\n")
-	b.WriteString("structure Access where\n  fn : String\n  field : String\n  write : Bool\n  lock : Lock\n  deriving DecidableEq, Repr\n\n")
+	b.WriteString("structure Access where\n  fn : String\n  field : String\n  write : Bool\n  lock : Lock\n  /-- a write that replaces the whole field (`r.z = …`) instead of updating it in place (`r.z[k] = …`, `delete(r.z, k)`) -/\n  whole : Bool\n  deriving DecidableEq, Repr\n\n")
 	b.WriteString("structure Call where\n  fn : String\n  callee : String\n  lock : Lock\n  deriving DecidableEq, Repr\n\n")
 	b.WriteString("/-- mux/router.go: fields of struct Router (AST) -/\n")
 	b.WriteString("def routerFields : List String := " + natList(fieldOrder, rlLeanStr) + "\n\n")
@@ -210,7 +212,7 @@ func genRouterLockShape(g *gen, repo string) {
 		if i == len(st.accesses)-1 {
 			sep = ""
 		}
-		fmt.Fprintf(&b, "  ⟨%s, %s, %v, .%s⟩%s\n", rlLeanStr(a.fn), rlLeanStr(a.field), a.write, a.lock, sep)
+		fmt.Fprintf(&b, "  ⟨%s, %s, %v, .%s, %v⟩%s\n", rlLeanStr(a.fn), rlLeanStr(a.field), a.write, a.lock, a.whole, sep)
 	}
 	b.WriteString("]\n\n")
 	b.WriteString("/-- calls of Router methods on the same router, with the lock held at the call -/\n")
@@ -248,6 +250,8 @@ func genRouterLockShape(g *gen, repo string) {
 	fmt.Fprintf(&b, "def observationCleansUpOnEveryError : Bool := %v\n\n", obsCleanup)
 	b.WriteString("/-- udp/server/discover.go DiscoveryRequest: are the removals from multicastHandler and multicastRequests deferred BEFORE the\n    first statement that writes the datagram (so that a failed write leaves no token in the server-wide table every\n    connection's handler consults before the configured one) (AST) -/\n")
 	fmt.Fprintf(&b, "def discoveryCleansUpOnFailedWrite : Bool := %v\n\n", discCleanup)
+	b.WriteString("/-- mux/middleware.go Router.Use: is the body exactly `r.middlewares = append(r.middlewares, mwf...)` — the router's chain lives in\n    the router's own slice and never adopts the caller's variadic slice (AST) -/\n")
+	fmt.Fprintf(&b, "def useAppendsToOwnSlice : Bool := %v\n\n", useAppends)
 	b.WriteString("end CoapVerif.Generated.RouterLockShape\n")
 	g.write("RouterLockShape.lean", b.String())
 }
@@ -344,12 +348,18 @@ func (w *rlWalker) lockOp(k string) {
 // returns with a non-deferred lock fail closed. Function literals are analysed as separate pseudo-functions.
 func (w *rlWalker) scanStmt(s ast.Stmt) {
 	writes := map[ast.Expr]bool{}
+	wholes := map[ast.Expr]bool{}
 	markWrite := func(e ast.Expr) {
 		e = unparen(e)
 		if ix, ok := e.(*ast.IndexExpr); ok {
 			e = unparen(ix.X)
+		} else {
+			wholes[e] = true
 		}
 		writes[e] = true
+	}
+	markElemWrite := func(e ast.Expr) {
+		writes[unparen(e)] = true
 	}
 	var lits []*ast.FuncLit
 	ast.Inspect(s, func(n ast.Node) bool {
@@ -371,7 +381,7 @@ func (w *rlWalker) scanStmt(s ast.Stmt) {
 			}
 		case *ast.CallExpr:
 			if identName(t.Fun) == "delete" && len(t.Args) == 2 {
-				markWrite(t.Args[0])
+				markElemWrite(t.Args[0])
 			}
 			if w.mutexCall(t) != "" {
 				w.failf("mutex operation nested inside a statement")
@@ -395,7 +405,7 @@ func (w *rlWalker) scanStmt(s ast.Stmt) {
 				base := identName(t.X)
 				if w.routers[base] {
 					if t.Sel.Name != "m" {
-						w.st.accesses = append(w.st.accesses, rlAccess{w.fn, t.Sel.Name, writes[ast.Expr(t)], w.lockName()})
+						w.st.accesses = append(w.st.accesses, rlAccess{w.fn, t.Sel.Name, writes[ast.Expr(t)], w.lockName(), wholes[ast.Expr(t)]})
 					}
 					return false
 				}
@@ -598,6 +608,31 @@ func rlDiscoveryCleanup(repo string) bool {
 		fail("RouterLockShape: DiscoveryRequest: `multicastHandler.LoadOrStore` followed by a write of the datagram not found")
 	}
 	return delH > store && delH < write && delR > store && delR < write
+}
+
+// rlUseAppends: Router.Use(mwf ...MiddlewareFunc) consists of the single statement `<r>.middlewares = append(<r>.middlewares, <mwf>...)`.
+func rlUseAppends(repo string) bool {
+	_, f := parseFile(repo, "mux/middleware.go")
+	fd := funcDecl(f, "Router", "Use")
+	if len(fd.Recv.List[0].Names) != 1 || fd.Type.Params == nil || len(fd.Type.Params.List) != 1 || len(fd.Type.Params.List[0].Names) != 1 {
+		fail("RouterLockShape: Router.Use: receiver/parameter shape")
+	}
+	recv := fd.Recv.List[0].Names[0].Name
+	param := fd.Type.Params.List[0].Names[0].Name
+	if len(fd.Body.List) != 1 {
+		return false
+	}
+	as, ok := fd.Body.List[0].(*ast.AssignStmt)
+	if !ok || as.Tok != token.ASSIGN || len(as.Lhs) != 1 || len(as.Rhs) != 1 {
+		return false
+	}
+	isField := func(e ast.Expr) bool {
+		sel, ok := e.(*ast.SelectorExpr)
+		return ok && sel.Sel.Name == "middlewares" && identName(sel.X) == recv
+	}
+	call, ok := as.Rhs[0].(*ast.CallExpr)
+	return isField(as.Lhs[0]) && ok && identName(call.Fun) == "append" && len(call.Args) == 2 && call.Ellipsis.IsValid() &&
+		isField(call.Args[0]) && identName(call.Args[1]) == param
 }
 
 type rlApply struct {
